@@ -29,6 +29,10 @@ pub struct Case {
     pub fault_seed: u64,
     /// try every prefix length of every encoding (thorough, small circuits)
     pub every_prefix: bool,
+    /// also save / restore an aggregator circuit that verifies this circuit's proof:
+    /// 0 = no, 1 = verify_proof, 2 = conditionally_verify_proof_or_dummy (DummyProofGenerator)
+    #[serde(default)]
+    pub recursion: u8,
 }
 
 pub fn gen(rng: &mut Rng, tier: Tier) -> Value {
@@ -43,6 +47,11 @@ pub fn gen(rng: &mut Rng, tier: Tier) -> Value {
         entropy: Entropy::draw(&mut re),
         fault_seed: rf.u64(),
         every_prefix: tier == Tier::Thorough && rf.chance(1, 100),
+        recursion: match rf.below(12) {
+            0 => 1,
+            1 => 2,
+            _ => 0,
+        },
     })
     .unwrap()
 }
@@ -313,6 +322,10 @@ pub fn exec(case: &Value, rep: &mut Report) {
     if w.write_circuit_data(data, &gs, &ws).is_err() || w.buf != full {
         viol(rep, case, "write_seam_differs_from_to_bytes", "circuit_data", String::new());
     }
+    // ---- a recursion circuit (gates and generators that only aggregators use) through the same crash / restart
+    if case.recursion > 0 && built.data.common.degree_bits() <= 8 && built.cfg.num_query_rounds <= 12 {
+        recursion_roundtrip(case, &built, &proof, rep, base_sig);
+    }
     rep.sample(json!({"config": built.cfg.class(), "ops": case.st.prog.ops.len(), "circuit_bytes": full.len(), "proof_bytes": pb.len(), "every_prefix": case.every_prefix}));
     let _ = Buffer::new(&[]);
 }
@@ -334,4 +347,105 @@ pub fn shrink(case: &Value) -> Vec<Value> {
         out.push(d);
     }
     out.into_iter().map(|d| serde_json::to_value(d).unwrap()).collect()
+}
+
+fn recursion_roundtrip(case: &Case, built: &Built<C>, proof: &ProofWithPublicInputs<F, C, D>, rep: &mut Report, base_sig: u64) {
+    use plonky2::iop::witness::{PartialWitness, WitnessWrite};
+    use plonky2::plonk::circuit_builder::CircuitBuilder;
+    use plonky2::plonk::circuit_data::CircuitConfig;
+    let gs = DefaultGateSerializer;
+    let ws = DefaultGeneratorSerializer::<C, D> { _phantom: Default::default() };
+    let inner = &built.data;
+    case.entropy.arm();
+    let outer = guarded(|| {
+        let mut b = CircuitBuilder::<F, D>::new(CircuitConfig::standard_recursion_config());
+        let pt = b.add_virtual_proof_with_pis(&inner.common);
+        let vt = b.add_virtual_verifier_data(inner.common.config.fri_config.cap_height);
+        let cond = if case.recursion == 2 {
+            let c = b.add_virtual_bool_target_safe();
+            b.conditionally_verify_proof_or_dummy::<C>(c, &pt, &vt, &inner.common).map_err(|e| e.to_string())?;
+            Some(c)
+        } else {
+            b.verify_proof::<C>(&pt, &vt, &inner.common);
+            None
+        };
+        b.register_public_inputs(&pt.public_inputs);
+        Ok::<_, String>((b.build::<C>(), pt, vt, cond))
+    });
+    let (odata, pt, vt, cond) = match outer {
+        Ok(Ok(x)) => x,
+        _ => {
+            rep.skip("recursion circuit not buildable for this inner shape (or-dummy preconditions)");
+            return;
+        }
+    };
+    for g in &odata.common.gates {
+        let id = g.0.id();
+        rep.probe(&format!("gate_tag.{}", id.split(|ch| ch == ' ' || ch == '{' || ch == '<' || ch == '(').next().unwrap()));
+    }
+    {
+        let mut seen = std::collections::BTreeSet::new();
+        for g in &odata.prover_only.generators {
+            seen.insert(g.0.id());
+        }
+        for id in seen {
+            rep.probe(&format!("generator_tag.{id}"));
+        }
+    }
+    rep.probe(if case.recursion == 2 { "c17.recursion_circuit.or_dummy" } else { "c17.recursion_circuit.verify_proof" });
+    let assign = || {
+        let mut pw = PartialWitness::new();
+        pw.set_proof_with_pis_target(&pt, proof).unwrap();
+        pw.set_verifier_data_target(&vt, &inner.verifier_only).unwrap();
+        if let Some(c) = cond {
+            pw.set_bool_target(c, true).unwrap();
+        }
+        pw
+    };
+    rep.case(base_sig ^ hash_str("recursion_roundtrip") ^ case.recursion as u64, true);
+    let bytes = match guarded(|| odata.to_bytes(&gs, &ws)) {
+        Ok(Ok(b)) => b,
+        other => return viol(rep, case, "encode_failed", "recursion_circuit_data", format!("{:?}", other.map(|r| r.is_ok()))),
+    };
+    let restored = match guarded(|| CircuitData::<F, C, D>::from_bytes(&bytes, &gs, &ws)) {
+        Ok(Ok(c)) => c,
+        other => return viol(rep, case, "decode_failed", "recursion_circuit_data", format!("{:?}", other.map(|r| r.is_ok()))),
+    };
+    if restored != odata {
+        viol(rep, case, "decoded_value_differs", "recursion_circuit_data", String::new());
+    }
+    match guarded(|| restored.to_bytes(&gs, &ws)) {
+        Ok(Ok(b2)) if b2 == bytes => {}
+        _ => viol(rep, case, "re_encoding_differs", "recursion_circuit_data", String::new()),
+    }
+    // same witness from the same entropy, and interchangeable proofs
+    case.entropy.arm();
+    let w1 = guarded(|| generate_partial_witness(assign(), &odata.prover_only, &odata.common).map(|w| w.values.clone()));
+    case.entropy.arm();
+    let w2 = guarded(|| generate_partial_witness(assign(), &restored.prover_only, &restored.common).map(|w| w.values.clone()));
+    match (w1, w2) {
+        (Ok(Ok(a)), Ok(Ok(b))) => {
+            if a != b {
+                viol(rep, case, "restored_witness_generation_differs", "recursion_circuit_data", String::new());
+            }
+        }
+        (Ok(Ok(_)), _) => viol(rep, case, "restored_witness_generation_fails", "recursion_circuit_data", String::new()),
+        _ => {
+            rep.skip("recursion: witness generation failed on the original");
+            return;
+        }
+    }
+    arm(&case.sched, &case.entropy);
+    match guarded(|| restored.prove(assign())) {
+        Ok(Ok(p)) => {
+            if !matches!(guarded(|| odata.verify(p.clone())), Ok(Ok(()))) {
+                viol(rep, case, "proof_of_restored_prover_rejected_by_original", "recursion_circuit_data", String::new());
+            }
+            if p.public_inputs != proof.public_inputs {
+                viol(rep, case, "restored_prover_public_inputs_differ", "recursion_circuit_data", String::new());
+            }
+        }
+        other => viol(rep, case, "restored_prover_cannot_prove", "recursion_circuit_data", format!("{:?}", other.map(|r| r.map(|_| ()).map_err(|e| e.to_string())))),
+    }
+    rep.absorb_seams();
 }
